@@ -14,6 +14,7 @@ use vsched::report::{Plan, Unit};
 use vsched::{ExecCfg, Outcome, PointKind};
 
 struct Dummy;
+#[cfg_attr(feature = "alt", ractor::async_trait)]
 impl Actor for Dummy {
     type Msg = u32;
     type State = ();
